@@ -2,4 +2,4 @@
 From Coq Require Extraction ExtrOcamlBasic.
 From Falco Require Import Base.Bytes Model.HdrField Model.Hdr Model.HdrMulti.
 Extraction Language OCaml.
-Extraction "hdr_model.ml" run st0 mrun mst0 get_field set_field unset_field n2b b2n.
+Extraction "hdr_model.ml" run st0 step mrun mst0 mstep h_getfn get_field set_field unset_field n2b b2n.
